@@ -365,7 +365,14 @@ func (e *Engine) load(st *state, addr *Val, t types.Type) *Val {
 		}
 		// likewise a short array of records filled element by element (a table in a composite literal)
 		if av, isArr := t.Underlying().(*types.Array); isArr && av.Len() > 0 && av.Len() <= 16 {
-			if _, recs := av.Elem().Underlying().(*types.Struct); recs {
+			recs := false
+			switch eu := av.Elem().Underlying().(type) {
+			case *types.Struct, *types.Pointer, *types.Signature, *types.Interface, *types.Slice:
+				recs = true
+			case *types.Basic:
+				recs = eu.Info()&types.IsString != 0 // (byte and number arrays are staged blocks, not tables)
+			}
+			if recs {
 				any := false
 				agg := &Val{Op: "array", Type: t}
 				for i := int64(0); i < av.Len(); i++ {
@@ -850,6 +857,17 @@ func (e *Engine) unrollable(fr *frame, h *ssa.BasicBlock, body map[*ssa.BasicBlo
 					return true
 				}
 			}
+			// … or that picks the iteration's element out of a short array value written out in this function
+			// (`for _, s := range [...]string{p.A, p.B}`)
+			if ix, isIx := in.(*ssa.Index); isIx {
+				if arr, isArr := ix.X.Type().Underlying().(*types.Array); isArr {
+					if eb, isB := arr.Elem().Underlying().(*types.Basic); !isB || eb.Info()&types.IsString != 0 {
+						if def, isInstr := ix.X.(ssa.Instruction); !isInstr || !body[def.Block()] {
+							return true
+						}
+					}
+				}
+			}
 			// ... or whose elements are records or pointers that say what each step works on (a table of field
 			// pointers and widths): the element of each iteration is a constant of the program
 			if ia, isIA := in.(*ssa.IndexAddr); isIA {
@@ -860,6 +878,17 @@ func (e *Engine) unrollable(fr *frame, h *ssa.BasicBlock, body map[*ssa.BasicBlo
 				case *types.Pointer:
 					if arr, isArr := xt.Elem().Underlying().(*types.Array); isArr {
 						el = arr.Elem()
+					}
+				}
+				// … or a short array written out in this function (`for _, s := range [...]string{p.A, p.B}`): each
+				// iteration's element is one of the listed values
+				if al, isAlloc := ia.X.(*ssa.Alloc); isAlloc && !body[al.Block()] {
+					if pt, isP := al.Type().Underlying().(*types.Pointer); isP {
+						if arr, isArr := pt.Elem().Underlying().(*types.Array); isArr {
+							if eb, isB := arr.Elem().Underlying().(*types.Basic); !isB || eb.Info()&types.IsString != 0 {
+								return true
+							}
+						}
 					}
 				}
 				if el != nil {
@@ -2159,6 +2188,12 @@ func (e *Engine) step(st *state, fr *frame, instr ssa.Instruction) {
 	case *ssa.Index:
 		x, i := e.val(fr, in.X), e.val(fr, in.Index)
 		e.indexCheck(st, fr, in, x, i, in.X.Type())
+		if ax := stripCT(x); ax != nil && ax.Op == "array" {
+			if k, isC := i.Int64(); isC && k >= 0 && int(k) < len(ax.Args) && ax.Args[k] != nil {
+				fr.env[in] = ax.Args[k] // an element of an array value written out element by element
+				break
+			}
+		}
 		fr.env[in] = &Val{Op: "elem", Args: []*Val{e.contentOf(st, x), i}, Type: in.Type()}
 	case *ssa.Lookup:
 		x, k := e.val(fr, in.X), e.val(fr, in.Index)
